@@ -933,6 +933,10 @@ func (s *Store) monitorLeaseAsPrimary(ctx context.Context, lease Lease) error {
 		}
 
 		log.Printf("set cluster id on %q lease %q", s.Leaser.Type(), clusterID)
+	} else if v != s.ClusterID() {
+		// The leaser's ID was checked before the lease was acquired but it may
+		// have been set or changed by another node since then.
+		return fmt.Errorf("cannot become primary, %q lease has cluster id %q but local cluster id is %q", s.Leaser.Type(), v, s.ClusterID())
 	}
 
 	// Mark as the primary node while we're in this function.
